@@ -308,15 +308,130 @@ def check_parse_line(ctx, rep):
     return n
 
 
+# class invariants in CANONICAL terms: fields as `self.X`; inside the loop over the transition map `key0, key1, ..` are
+# the components of a key, `val` is the value, `val_e0, val_e1` the components of an element of a set-valued value and
+# `val_0, val_1, val_2` the components of a tuple value.  Conjunctions are split, aliases and loop variables resolved,
+# and a few spellings normalised (<=/issubset, `x in S | {e}` / `x in S or x == e`, list/tuple/set of constants).
 INVARIANTS = {
-    'dfa.DFA': [['q0 in Q'], ['F <= Q', 'F.issubset(Q)', 'Q >= F'], ['q in Q'], ['a in Sigma'], ['q1 in Q'], ['self._is_total()']],
-    'nfa.NFA': [['q0 in Q'], ['F <= Q', 'F.issubset(Q)', 'Q >= F'], ['epsilon not in Sigma'], ['q in Q'], ['a in Sigma | {epsilon}', 'a in Sigma or a == epsilon', 'a == epsilon or a in Sigma'],
-                ['Q1 <= Q', 'Q1.issubset(Q)']],
-    'pda.PDA': [['q0 in Q'], ['epsilon not in Sigma'], ['epsilon not in Gamma'], ['F <= Q', 'F.issubset(Q)'], ['p in Q'], ['a in Sigma | {epsilon}'], ['u in Gamma | {epsilon}'], ['q in Q'],
-                ['v in Gamma | {epsilon}']],
-    'tm.TM': [['q0 in Q'], ['q_accept in Q'], ['q_reject in Q'], ['q_reject != q_accept', 'q_accept != q_reject'], ['blank not in Sigma'], ['blank in Gamma'],
-              ['Sigma <= Gamma', 'Sigma.issubset(Gamma)'], ['p in Q'], ['a in Gamma'], ['q in Q'], ['b in Gamma'], ["d in ['L', 'R']", "d in ('L', 'R')", "d in {'L', 'R'}"]],
+    'dfa.DFA': ['self.q0 in self.Q', 'self.F <= self.Q', 'key0 in self.Q', 'key1 in self.Sigma', 'val in self.Q', 'self._is_total()'],
+    'nfa.NFA': ['self.q0 in self.Q', 'self.F <= self.Q', 'self.epsilon not in self.Sigma', 'key0 in self.Q', 'key1 in self.Sigma | {self.epsilon}', 'val <= self.Q'],
+    'pda.PDA': ['self.q0 in self.Q', 'self.epsilon not in self.Sigma', 'self.epsilon not in self.Gamma', 'self.F <= self.Q', 'key0 in self.Q', 'key1 in self.Sigma | {self.epsilon}',
+                'key2 in self.Gamma | {self.epsilon}', 'val_e0 in self.Q', 'val_e1 in self.Gamma | {self.epsilon}'],
+    'tm.TM': ['self.q0 in self.Q', 'self.q_accept in self.Q', 'self.q_reject in self.Q', 'self.q_accept != self.q_reject', 'self.blank not in self.Sigma', 'self.blank in self.Gamma',
+              'self.Sigma <= self.Gamma', 'key0 in self.Q', 'key1 in self.Gamma', 'val_0 in self.Q', 'val_1 in self.Gamma', "val_2 in {'L', 'R'}"],
 }
+
+
+class _Canon(ast.NodeTransformer):
+    def __init__(self, env):
+        self.env = env
+
+    def visit_Name(self, node):
+        if node.id in self.env:
+            return ast.Name(id=self.env[node.id], ctx=ast.Load())
+        return node
+
+
+def _canonical_asserts(cv):
+    """set of canonical atom texts asserted by a _check_validity method"""
+    env = {}
+
+    def bind(target, term):
+        if isinstance(target, ast.Name):
+            env[target.id] = term
+        elif isinstance(target, (ast.Tuple, ast.List)):
+            for i, t in enumerate(target.elts):
+                bind(t, '{}_{}'.format(term, i) if term.startswith('val') else '{}{}'.format(term, i))
+
+    def canon_expr(e):
+        return u(_Canon(env).visit(ast.parse(u(e), mode='eval').body))
+
+    def is_map(e):
+        t = canon_expr(e)
+        return t == 'self.delta'
+
+    atoms = set()
+
+    def add_atom(t):
+        # split conjunctions
+        if isinstance(t, ast.BoolOp) and isinstance(t.op, ast.And):
+            for v in t.values:
+                add_atom(v)
+            return
+        if isinstance(t, ast.UnaryOp) and isinstance(t.op, ast.Not) and isinstance(t.operand, ast.Compare) and len(t.operand.ops) == 1:
+            c = t.operand
+            flip = {ast.In: ast.NotIn, ast.NotIn: ast.In, ast.Eq: ast.NotEq, ast.NotEq: ast.Eq}.get(type(c.ops[0]))
+            if flip:
+                t = ast.Compare(left=c.left, ops=[flip()], comparators=c.comparators)
+        # x in S or x == e   ->  x in S | {e}
+        if isinstance(t, ast.BoolOp) and isinstance(t.op, ast.Or) and len(t.values) == 2:
+            a, b = t.values
+            for x, y in ((a, b), (b, a)):
+                if isinstance(x, ast.Compare) and isinstance(x.ops[0], ast.In) and isinstance(y, ast.Compare) and isinstance(y.ops[0], ast.Eq) and u(x.left) in (u(y.left), u(y.comparators[0])):
+                    other = y.comparators[0] if u(y.left) == u(x.left) else y.left
+                    t = ast.Compare(left=x.left, ops=[ast.In()], comparators=[ast.BinOp(left=x.comparators[0], op=ast.BitOr(), right=ast.Set(elts=[other]))])
+                    break
+        txt = canon_expr(t)
+        node = ast.parse(txt, mode='eval').body
+        if isinstance(node, ast.Call) and isinstance(node.func, ast.Attribute) and node.func.attr == 'issubset' and len(node.args) == 1:
+            txt = '{} <= {}'.format(u(node.func.value), u(node.args[0]))
+        elif isinstance(node, ast.Compare) and len(node.ops) == 1:
+            a, b = node.left, node.comparators[0]
+            if isinstance(node.ops[0], ast.GtE):
+                txt = '{} <= {}'.format(u(b), u(a))
+            elif isinstance(node.ops[0], ast.NotEq):
+                x, y = sorted([u(a), u(b)])
+                txt = '{} != {}'.format(x, y)
+            elif isinstance(node.ops[0], (ast.In, ast.NotIn)) and isinstance(b, (ast.List, ast.Tuple, ast.Set)) and all(isinstance(x, ast.Constant) for x in b.elts):
+                txt = '{} {} {{{}}}'.format(u(a), 'in' if isinstance(node.ops[0], ast.In) else 'not in', ', '.join(sorted(repr(x.value) for x in b.elts)))
+            elif isinstance(node.ops[0], (ast.In, ast.NotIn)) and isinstance(b, ast.BinOp) and isinstance(b.op, ast.BitOr) and isinstance(b.left, ast.Set):
+                txt = '{} {} {} | {}'.format(u(a), 'in' if isinstance(node.ops[0], ast.In) else 'not in', u(b.right), u(b.left))
+        atoms.add(txt)
+
+    def walk(stmts):
+        for st in stmts:
+            if isinstance(st, ast.Assign) and len(st.targets) == 1:
+                tg, val = st.targets[0], st.value
+                if isinstance(tg, (ast.Tuple, ast.List)) and isinstance(val, (ast.Tuple, ast.List)) and len(tg.elts) == len(val.elts) and not any(canon_expr(v).startswith('val') for v in val.elts):
+                    for t, v in zip(tg.elts, val.elts):
+                        if isinstance(t, ast.Name):
+                            env[t.id] = canon_expr(v)
+                    continue
+                # x = delta[key...]  -> the value of the current key
+                if isinstance(val, ast.Subscript) and is_map(val.value):
+                    bind(tg, 'val')
+                    continue
+                if isinstance(tg, ast.Name):
+                    env[tg.id] = canon_expr(val)
+                elif isinstance(tg, (ast.Tuple, ast.List)):
+                    bind(tg, canon_expr(val))
+                continue
+            if isinstance(st, ast.For):
+                it = st.iter
+                if is_map(it):
+                    bind(st.target, 'key')
+                elif isinstance(it, ast.Call) and isinstance(it.func, ast.Attribute) and it.func.attr == 'items' and is_map(it.func.value) and isinstance(st.target, ast.Tuple) and len(st.target.elts) == 2:
+                    bind(st.target.elts[0], 'key')
+                    bind(st.target.elts[1], 'val')
+                elif canon_expr(it) == 'val' or (isinstance(it, ast.Subscript) and is_map(it.value)):
+                    # elements of a set-valued value
+                    if isinstance(st.target, (ast.Tuple, ast.List)):
+                        for i, t in enumerate(st.target.elts):
+                            if isinstance(t, ast.Name):
+                                env[t.id] = 'val_e{}'.format(i)
+                    elif isinstance(st.target, ast.Name):
+                        env[st.target.id] = 'val_e'
+                walk(st.body)
+                continue
+            if isinstance(st, ast.Assert):
+                add_atom(st.test)
+                continue
+            if isinstance(st, ast.If):
+                walk(st.body)
+                walk(st.orelse)
+    walk(cv.node.body)
+    # `key0`-style names were written as 'key' + index by bind(); unify 'key.0' spellings
+    return atoms
 
 
 def check_invariants(ctx, rep):
@@ -328,13 +443,14 @@ def check_invariants(ctx, rep):
         if cv is None or init is None:
             rep.violates(RULE + '.inv', spec, 'class ' + cls.name, 'the class has no _check_validity')
             continue
-        asserts = {u(a.test) for a in walk_no_nested(cv.node) if isinstance(a, ast.Assert)}
-        for alts in wanted:
+        asserts = _canonical_asserts(cv)
+        rep.extra.setdefault('invariant_atoms', {})[cls.name] = sorted(asserts)
+        for atom in wanted:
             n += 1
-            if any(a in asserts for a in alts):
-                rep.holds(RULE + '.inv', cv, 'assert ' + alts[0], 'invariant asserted', nontrivial=False)
+            if atom in asserts:
+                rep.holds(RULE + '.inv', cv, 'invariant ' + atom, 'invariant asserted', nontrivial=False)
             else:
-                rep.violates(RULE + '.inv', cv, 'assert ' + alts[0], 'the class invariant `{}` is no longer asserted by {}._check_validity'.format(alts[0], cls.name))
+                rep.violates(RULE + '.inv', cv, 'invariant ' + atom, 'the class invariant `{}` is no longer asserted by {}._check_validity (asserted, in canonical form: {})'.format(atom, cls.name, '; '.join(sorted(asserts))))
         # the constructor runs the check by default
         d = init.defaults.get('check_validity')
         called = [c for c in _self_calls(init, '_check_validity')]
